@@ -69,6 +69,19 @@ Step ==
               /\ nUnspec' = nUnspec
          ELSE IF r.t = "unspec" THEN nUnspec' = nUnspec + 1
          ELSE Bad(<<"independent reader cannot read the stream", r.t>>) /\ nUnspec' = nUnspec
+    [] e.ev = "parsedall" ->
+         \* the implementation's reading of a whole input as a stream of data: res = "ok" (all of vs, then
+         \* the end of input) or "err" (vs, then an error)
+         LET r == ReadAll(e.text, e.ro) IN
+         IF r.t = "ok" THEN
+              /\ (IF e.res # "ok" THEN Bad("reference reads the stream, implementation fails")
+                  ELSE IF (\A i \in DOMAIN r.vs : Comparable(r.vs[i])) /\ e.vs # r.vs THEN Bad("implementation reads different data")
+                  ELSE TRUE)
+              /\ nUnspec' = nUnspec
+         ELSE IF r.t \in {"rej", "inc"} THEN
+              /\ (IF e.res = "ok" THEN Bad(<<"input must be rejected", r.t>>) ELSE TRUE)
+              /\ nUnspec' = nUnspec
+         ELSE nUnspec' = nUnspec + 1
     [] OTHER -> Bad("unknown event") /\ nUnspec' = nUnspec
 
 Next == l <= Len(Rec) /\ Step /\ l' = l + 1
